@@ -106,7 +106,7 @@ def step (types : Array SigType) (s : St) (op : Op) : Option St :=
       else if s.needNewMax then none
       else if t = m then some { s with skipping := false }
       else some { s with skipping := true }
-  | .split => if s.ttRev.isEmpty then none else some { s with needNewMax := true }
+  | .split => if s.ttRev.isEmpty then some s else some { s with needNewMax := true }   -- nothing recorded yet: a split changes nothing
   | .vcd id value realLe =>
     if s.needNewMax ∨ s.ttRev.isEmpty then none else
     match types[id]? with
